@@ -45,9 +45,16 @@ def write_overlay(extra_inpkg):
     json.dump({'Replace': rep}, open(path, 'w'), indent=1)
     return path
 
-INPKG = {
-    'inpkg/lb.go': 'zz_verif_lb.go',
-}
+def inpkg_files():
+    """every go/inpkg/*.go is added to package netpoll, every go/inpkg_mux/*.go to package mux (as zz_verif_<name>.go)"""
+    m = {}
+    for d, sub in (('inpkg', ''), ('inpkg_mux', 'mux/')):
+        p = os.path.join(GO, d)
+        if os.path.isdir(p):
+            for f in sorted(os.listdir(p)):
+                if f.endswith('.go'):
+                    m[d + '/' + f] = sub + 'zz_verif_' + f
+    return m
 
 def build_harness(name, race=False, tags='verif'):
     """(re)build go/cmd/<name> against /repo's current working tree with hooks on."""
@@ -56,8 +63,7 @@ def build_harness(name, race=False, tags='verif'):
         sum_src = os.path.join(REPO, 'go.sum')
         if os.path.exists(sum_src):
             open(os.path.join(GO, 'go.sum'), 'w').write(open(sum_src).read())
-        inpkg = {k: v for k, v in INPKG.items() if os.path.exists(os.path.join(GO, k))}
-        ov = write_overlay(inpkg)
+        ov = write_overlay(inpkg_files())
         out = os.path.join(BIN, name + ('-race' if race else ''))
         if os.path.exists(out):
             os.remove(out)
